@@ -31,8 +31,14 @@ def findMount (key : Str) : Table → Option (Nat × Str)
     else findMount key rest
 
 /-- `MountFS._delegate(path)`: `(member, member-relative path)`; when no mount matches it is
-`(default_fs, path)` with the *raw* argument (not the normalised one). -/
+`(default_fs, path)` with the *raw* argument (not the normalised one).  A path that contains NUL is refused
+first (InvalidCharsInPath), whatever it normalises to. -/
 def delegate (mounts : Table) (p : Str) : Res (Nat × Str) :=
+  -- since /repo 48e26ed: `invalid_chars = self._meta.get("invalid_path_chars")` (= "\0");
+  -- `if invalid_chars and set(path).intersection(invalid_chars): raise InvalidCharsInPath(path)` —
+  -- the RAW path is looked at before it is normalised (a mounted filesystem only sees the remainder)
+  if p.contains '\x00' then .err .InvalidCharsInPath
+  else
   match normpath p with
   | .err e => .err e
   | .ok n =>
@@ -151,8 +157,8 @@ def scanRouted (s : MState) (p : Str) (firstOnly : Bool) : MState × Out × List
 
 /-- every method `MountFS` defines.  All are `check(); _delegate; forward` (since 8088539 also
 `download` and `writetext`, which are not among the primitives), except:
-`getinfo` and `scandir` (above); `openbin` validates the mode first; `removedir` normalises,
-refuses the root, and delegates the *normalised* path; `makedirs` is not a MountFS method
+`getinfo` and `scandir` (above); `openbin` validates the mode first; `removedir` delegates the raw
+path first and refuses the root afterwards (since 48e26ed; before it normalised first and delegated the normalised path); `makedirs` is not a MountFS method
 (the inherited default is the program `baseMakedirs`), so as a primitive it is `Unsupported`. -/
 def prim (s : MState) (pr : Prim) : MState × Out × List Call :=
   match pr with
@@ -166,12 +172,14 @@ def prim (s : MState) (pr : Prim) : MState × Out × List Call :=
     if !modeOk m then (s, .err .ValueError, [])
     else checked s (routed s pr p)
   | .removedir p =>
+    -- since /repo 48e26ed: `fs, _path = self._delegate(path)` FIRST (raw path: invalid characters refused),
+    -- then `if normpath(path) in ("", "/"): raise RemoveRootError`, then `fs.removedir(_path)`
     checked s
-      (match normpath p with
+      (match delegate s.mounts p with
        | .err e => (s, .err e, [])
-       | .ok n =>
-         if n = [] ∨ n = ['/'] then (s, .err .RemoveRootError, [])
-         else routed s pr n)
+       | .ok _ =>
+         if normOf p = [] ∨ normOf p = ['/'] then (s, .err .RemoveRootError, [])
+         else routed s pr p)
   | .makedirs _ _ => (s, .err .Unsupported, [])
   | _ => checked s (routed s pr pr.path)
 
